@@ -43,9 +43,9 @@ def renderDefault : DefVal → Except Err String
 
 /-- identity options as `_compare_identity_default` reads them (`always` as a bool, `start`);
 anything that is not an `Identity` has none -/
-def identOpts : Option DefVal → Bool × Option Nat
-  | some (.identity a s) => (a, s)
-  | _ => (false, none)
+def identOpts : Option DefVal → Bool × Option Nat × List (String × String)
+  | some (.identity a s e) => (a, s, e)
+  | _ => (false, none, [])
 
 /-- the column specification of `_mysql_colspec` -/
 def mysqlColspec (default : Tri DefVal) (autoinc : Option Bool) (comment : Option String) :
@@ -96,21 +96,24 @@ def compile (d : Dialect) (t : TRef) (c : String) : Construct → Except Err Stm
         match ex with
         | .drop =>
           match dv with
-          | .identity a s => .ok (.identityAdd t c a s)
+          | .identity a s e => .ok (.identityAdd t c a s e)
           | _ => .error .attributeError
         | _ =>
           let m := identOpts (some dv)
           let i := identOpts ex.val?
           let diffAlways := m.1 != i.1
-          let diffStart := match m.2 with
-            | some v => i.2 != some v
+          let diffStart := match m.2.1 with
+            | some v => i.2.1 != some v
             | none => false
+          -- every further option the request sets to a value the existing identity does not have
+          let diffExtra := m.2.2.filter (fun kv => !(i.2.2.contains kv))
           if diffAlways && !dv.isIdentity then .error .attributeError
-          else .ok (.identityAlter t c (if diffAlways then some m.1 else none) (if diffStart then m.2 else none))
+          else .ok (.identityAlter t c (if diffAlways then some m.1 else none) (if diffStart then m.2.1 else none)
+            diffExtra)
     | .oracle =>
       match sd with
       | none => .ok (.identityDrop t c)
-      | some (.identity a s) => .ok (.identitySet t c a s)
+      | some (.identity a s e) => .ok (.identitySet t c a s e)
       | some _ => .error .attributeError
     | _ => .error .compileError
   | .columnType ty =>
